@@ -1,3 +1,4 @@
 -- Root of the `TempestVerif` library: everything that `lake build` must check.
 import TempestVerif.Sc
 import TempestVerif.Props.C16
+import TempestVerif.Props.C07
